@@ -126,8 +126,11 @@ func (c *connectionRequest) connect(ctx context.Context) (*connectionResult, err
 			}
 			c.player.handleDisconnectWithReason(result.attemptedConn, reason, false)
 		}
+		// The in-flight slot is not touched here: internalConnect has already released the
+		// connection it claimed (resetIfInFlightIs). Clearing the slot unconditionally let a
+		// request that was merely rejected (InProgress / AlreadyConnected), or one that failed,
+		// wipe out the in-flight connection of another request that is still under way.
 		verifhook.Point("sw.failed", "player", c.player.profile.Name)
-		c.player.resetInFlightConnection()
 	}
 	return result, err
 }
